@@ -1,0 +1,5 @@
+//go:build !verif
+
+package oper
+
+func verifSortHook(ops []Operator) {}
